@@ -464,7 +464,108 @@ func (e *Enc) evalIdent(sc *Scope, n *CIdent, hint types.Type) Val {
 			return e.constTyped(c.Val(), c.Type(), hint)
 		}
 	}
+	// a call-site snapshot (`at call N callee let x := $result`) whose call does not occur on the
+	// paths encoded (or no longer exists in the function): whatever the callee would have
+	// answered, i.e. an arbitrary value of its result type
+	if sc.fr != nil && sc.fr.contract != nil {
+		if v, ok := e.absentCallLet(sc, n.Name); ok {
+			return v
+		}
+	}
 	panic(unsupported("unknown identifier in contract: " + n.Name))
+}
+
+func (e *Enc) absentCallLet(sc *Scope, name string) (Val, bool) {
+	fr := sc.fr
+	if v, ok := fr.lets[name]; ok {
+		return v, true
+	}
+	for _, cs := range fr.contract.Calls {
+		for _, l := range cs.Lets {
+			if l.Label != name {
+				continue
+			}
+			_, ex := splitLet(l)
+			src := strings.TrimSpace(ex.String())
+			k := -1
+			switch {
+			case src == "$result":
+				k = 0
+			case strings.HasPrefix(src, "$result") && len(src) == len("$result")+1 && src[len(src)-1] >= '1' && src[len(src)-1] <= '9':
+				k = int(src[len(src)-1] - '0')
+			default:
+				return Val{}, false
+			}
+			sig := e.calleeSignature(sc, cs.Callee)
+			if sig == nil {
+				return Val{}, false
+			}
+			var t types.Type
+			switch {
+			case k == 0 && sig.Results().Len() == 1:
+				t = sig.Results().At(0).Type()
+			case k >= 1 && k <= sig.Results().Len():
+				t = sig.Results().At(k - 1).Type()
+			default:
+				return Val{}, false
+			}
+			v := e.freshVal(t, "absent_"+name)
+			v.Typ = t
+			fr.lets[name] = v
+			return v, true
+		}
+	}
+	return Val{}, false
+}
+
+// calleeSignature finds the signature of a callee named as in `at call` clauses:
+// "Func", "pkg/path.Func", "(Type).Method", "(*pkg/path.Type).Method".
+func (e *Enc) calleeSignature(sc *Scope, key string) *types.Signature {
+	lookupPkg := func(path string) *types.Package {
+		if path == "" {
+			return sc.pkg
+		}
+		return e.prog.typesPkg(path)
+	}
+	if strings.HasPrefix(key, "(") {
+		i := strings.LastIndex(key, ").")
+		if i < 0 {
+			return nil
+		}
+		recv, meth := strings.TrimPrefix(key[1:i], "*"), key[i+2:]
+		path, tname := "", recv
+		if j := strings.LastIndex(recv, "."); j >= 0 {
+			path, tname = recv[:j], recv[j+1:]
+		}
+		p := lookupPkg(path)
+		if p == nil {
+			return nil
+		}
+		tn, ok := p.Scope().Lookup(tname).(*types.TypeName)
+		if !ok {
+			return nil
+		}
+		obj, _, _ := types.LookupFieldOrMethod(types.NewPointer(tn.Type()), true, p, meth)
+		if obj == nil {
+			obj, _, _ = types.LookupFieldOrMethod(tn.Type(), true, p, meth)
+		}
+		if f, ok := obj.(*types.Func); ok {
+			return f.Type().(*types.Signature)
+		}
+		return nil
+	}
+	path, fname := "", key
+	if j := strings.LastIndex(key, "."); j >= 0 {
+		path, fname = key[:j], key[j+1:]
+	}
+	p := lookupPkg(path)
+	if p == nil {
+		return nil
+	}
+	if f, ok := p.Scope().Lookup(fname).(*types.Func); ok {
+		return f.Type().(*types.Signature)
+	}
+	return nil
 }
 
 func (e *Enc) constTyped(cv constant.Value, t types.Type, hint types.Type) Val {
